@@ -33,7 +33,8 @@ Record Rel (stream : bytes) (St : sstate) (s : bs) : Prop := mkRel {
   R_stmo : s_sintr St = sintrs (script s);
   R_suf : exists pre, stream = pre ++ flat (nt s);
   R_wf : wf_net (nt s) = true;
-  R_rs : 1 <= recvsize s
+  R_rs : 1 <= recvsize s;
+  R_dl : s_dl St = dl s
 }.
 
 Lemma conserved_ok stream s :
@@ -47,24 +48,24 @@ Lemma step_spec stream W St s o out s' ext :
   Rel stream St s -> step s o = (out, s') -> W = wire s' ++ ext ->
   exists St', spec_step stream W St o (observe (length stream) o out s') = Some St' /\ Rel stream St' s'.
 Proof.
-  intros [Hrem Hmax Htmo Hacc Hwl Hstmo [pre Hsuf] Hwf Hrs] Hstep HW.
+  intros [Hrem Hmax Htmo Hacc Hwl Hstmo [pre Hsuf] Hwf Hrs Hdl] Hstep HW.
   destruct (is_recv_op o) eqn:Hro.
   - (* receive side *)
     pose proof (step_recv_ok _ _ _ _ Hwf Hrs Hro Hstep) as (W' & SR & (p2 & Hp2) & Hcase).
-    destruct SR as (SR1 & SR2 & SR3 & SR4 & SR5).
+    destruct SR as (SR1 & SR2 & SR3 & SR4 & SR5 & SR6).
     assert (Hsuf' : exists q, stream = q ++ flat (nt s')).
     { exists (pre ++ p2). rewrite Hsuf, Hp2, app_assoc. reflexivity. }
     assert (Hns : is_send_op o = false) by (destruct o; try discriminate; reflexivity).
-    unfold spec_step, observe. rewrite Hro, Hns. cbn [o_out o_buf o_cnt getrecvbuffer].
+    unfold spec_step, observe. rewrite Hro, Hns. cbn [o_out o_buf o_cnt o_left getrecvbuffer].
     destruct Hcase as [(e & -> & Hr & Ht)|(Hnt & Ht & Hcase)].
-    + cbn [is_interrupt]. rewrite (intrs_head _ _ _ Ht). rewrite Htmo, Ht. cbn [next_intr].
-      rewrite exn_eqb_refl.
+    + cbn [is_interrupt]. rewrite (intr_by_is_intr _ _ _ _ Ht).
+      rewrite Hdl, Htmo, (intr_by_explain _ _ _ _ Ht).
       rewrite Hrem, <- Hr, conserved_ok by assumption.
       eexists. split; [reflexivity|]. constructor; cbn; try congruence; try lia; auto.
     + rewrite Hnt.
       assert (Hfin : forall rem', rem' = remaining s' ->
                 exists St', (if bytes_eqb (rbuf s' ++ skipn (consumed (length stream) s') stream) rem'
-                            then Some (mkS rem' (maxsize s) (s_intr St) (s_acc St) (s_wl St) (s_sintr St))
+                            then Some (mkS rem' (maxsize s) (s_intr St) (s_acc St) (s_wl St) (s_sintr St) (s_dl St))
                             else None) = Some St' /\ Rel stream St' s').
       { intros rem' ->. rewrite conserved_ok by assumption. eexists. split; [reflexivity|].
         constructor; cbn; try congruence; try lia; auto. }
@@ -76,8 +77,8 @@ Proof.
       * destruct Hcase as (dd & -> & Hok & Hr). rewrite Hok. apply Hfin. symmetry. exact Hr.
   - destruct (is_send_op o) eqn:Hso.
     + (* send side *)
-      pose proof (step_send_ok _ _ _ _ Hso Hstep) as ((SR1 & SR2 & SR3 & SR4) & sent & Hw & Hcons & Hcase).
-      unfold spec_step, observe. rewrite Hro, Hso. cbn [o_out o_buf o_cnt]. unfold getsendbuffer.
+      pose proof (step_send_ok _ _ _ _ Hso Hstep) as ((SR1 & SR2 & SR3 & SR4 & SR5) & sent & Hw & Hcons & Hcase).
+      unfold spec_step, observe. rewrite Hro, Hso. cbn [o_out o_buf o_cnt o_left]. unfold getsendbuffer.
       assert (Hfirst : firstn (length (wire s')) W = wire s').
       { rewrite HW. rewrite firstn_app_le by lia. apply firstn_all. }
       assert (Hconserved : forall acc', acc' = (wire s ++ concat (sbuf s)) ++ op_data o ->
@@ -89,8 +90,8 @@ Proof.
         - rewrite Hwl, Hw, app_length. lia. }
       assert (Hrel : forall si, si = sintrs (script s') ->
                 Rel stream (mkS (s_rem St) (s_max St) (s_intr St) ((wire s ++ concat (sbuf s)) ++ op_data o)
-                                (length (wire s')) si) s').
-      { intros si Hsi. constructor; cbn [s_rem s_max s_intr s_acc s_wl s_sintr].
+                                (length (wire s')) si (s_dl St)) s').
+      { intros si Hsi. constructor; cbn [s_rem s_max s_intr s_acc s_wl s_sintr s_dl].
         - rewrite Hrem. unfold remaining. rewrite SR1, SR2. reflexivity.
         - congruence.
         - rewrite SR2. assumption.
@@ -99,12 +100,14 @@ Proof.
         - assumption.
         - rewrite SR2. eauto.
         - rewrite SR2. assumption.
-        - rewrite SR4. assumption. }
-      assert (Hintr : forall e, sintrs (script s) = e :: sintrs (script s') ->
+        - rewrite SR4. assumption.
+        - congruence. }
+      assert (Hintr : forall e, sintr_by (dl s) e (script s) (script s') ->
                 is_interrupt (OExn e) = true /\
-                next_intr (OExn e) (s_sintr St) = Some (sintrs (script s'))).
-      { intros e He. split; [cbn; exact (sintrs_head _ _ _ He)|].
-        rewrite Hstmo, He. cbn [next_intr]. rewrite exn_eqb_refl. reflexivity. }
+                explain_intr (s_dl St) (OExn e) (s_sintr St) (length (sintrs (script s')))
+                = Some (sintrs (script s'))).
+      { intros e He. split; [cbn; exact (sintr_by_is_intr _ _ _ _ He)|].
+        rewrite Hdl, Hstmo. exact (sintr_by_explain _ _ _ _ He). }
       destruct o; try discriminate; cbn [op_data] in *; rewrite Hacc.
       * (* Send *)
         destruct out as [| n | |e]; try contradiction.
@@ -145,17 +148,17 @@ Proof.
   - apply step_send_ok in H; auto. destruct H as (_ & sent & Hw & _). eauto.
   - exists []. rewrite app_nil_r.
     destruct o; try discriminate; cbn [step] in H.
-    + unfold recv_until in H. destruct (ru_loop _ _ _ _ _ _ _) as [[? ?|? ?] ?]; inversion H; reflexivity.
+    + unfold recv_until, recv_until_dl in H. destruct (ru_loop _ _ _ _ _ _ _ _ _) as [[? ?|? ?] ?]; inversion H; reflexivity.
     + unfold recv_size, recv_size_lim in H.
       destruct (match rbuf s with [] => _ | _ => _ end) as [[?|] ?]; [|inversion H; reflexivity].
-      destruct (rs_loop _ _ _ _ _ _ _) as [[? ? ?|? ?] ?]; inversion H; reflexivity.
+      destruct (rs_loop _ _ _ _ _ _ _ _ _) as [[? ? ?|? ?] ?]; inversion H; reflexivity.
     + unfold peek in H. destruct (Nat.leb _ _); [inversion H; reflexivity|].
       unfold recv_size, recv_size_lim in H.
       destruct (match rbuf s with [] => _ | _ => _ end) as [[?|] ?]; [|inversion H; reflexivity].
-      destruct (rs_loop _ _ _ _ _ _ _) as [[? ? ?|? ?] ?]; inversion H; reflexivity.
+      destruct (rs_loop _ _ _ _ _ _ _ _ _) as [[? ? ?|? ?] ?]; inversion H; reflexivity.
     + unfold recv_close, recv_size_lim in H.
       destruct (match rbuf s with [] => _ | _ => _ end) as [[?|e0] ?]; [|destruct e0; inversion H; reflexivity].
-      destruct (rs_loop _ _ _ _ _ _ _) as [[? ? ?|[] ?] ?]; inversion H; reflexivity.
+      destruct (rs_loop _ _ _ _ _ _ _ _ _) as [[? ? ?|[] ?] ?]; inversion H; reflexivity.
     + unfold recv in H. destruct (Nat.leb _ _); [inversion H; reflexivity|].
       destruct (rbuf s); [|inversion H; reflexivity].
       destruct (sock_recv _ _) as [[?|] ?]; [|inversion H; reflexivity].
@@ -188,18 +191,18 @@ Proof.
 Qed.
 
 (* ---- the main refinement theorem ------------------------------------------------------ *)
-Theorem model_refines_spec mx rs n sc ops :
+Theorem model_refines_spec mx rs d n sc ops :
   wf_net n = true -> 1 <= rs ->
   let len := length (flat n) in
-  let '(obs, sf) := run len (bs_init mx rs n sc) ops in
-  spec_holds (flat n) mx (intrs n) (sintrs sc) obs (final_view len sf) = true.
+  let '(obs, sf) := run len (bs_init_dl mx rs d n sc) ops in
+  spec_holds (flat n) mx (intrs n) (sintrs sc) d obs (final_view len sf) = true.
 Proof.
-  intros W R len. destruct (run len (bs_init mx rs n sc) ops) as [obs sf] eqn:E.
-  assert (HR : Rel (flat n) (spec_init (flat n) mx (intrs n) (sintrs sc)) (bs_init mx rs n sc)).
+  intros W R len. destruct (run len (bs_init_dl mx rs d n sc) ops) as [obs sf] eqn:E.
+  assert (HR : Rel (flat n) (spec_init (flat n) mx (intrs n) (sintrs sc) d) (bs_init_dl mx rs d n sc)).
   { constructor; cbn; auto. exists []. reflexivity. }
   destruct (run_spec (flat n) ops _ _ obs sf HR E) as (St' & Hs & HR').
   unfold spec_holds, final_view. cbn [f_wire]. rewrite Hs.
-  destruct HR' as [Hrem Hmax Htmo Hacc Hwl Hstmo Hsuf Hwf Hrs].
+  destruct HR' as [Hrem Hmax Htmo Hacc Hwl Hstmo Hsuf Hwf Hrs Hdl].
   unfold spec_final. cbn [f_rbuf f_consumed f_sbuf f_wire getrecvbuffer getsendbuffer].
   rewrite Hrem, Hacc, Hwl. subst len. rewrite conserved_ok by assumption.
   rewrite bytes_eqb_refl, Nat.eqb_refl. reflexivity.
